@@ -406,7 +406,19 @@ static void c05_case(const TypeCtx& c, uint64_t ci) {
   if (b.size() <= (size_t)quick_or(512, 4096)) for (size_t k = 0; k < b.size(); k++) cuts.push_back(k);
   else { Enc e; RefEncode(c.sch, w.v0, e); std::set<size_t> cs; for (auto& f : e.fields) { for (int d = -1; d <= 1; d++) { size_t k = f.off + d; if (k < b.size()) cs.insert(k); k = f.off + f.len + d; if (k < b.size()) cs.insert(k); } } Rng r = case_rng(c.t->name, ci, 5); for (int i = 0; i < 64; i++) cs.insert(r.below(b.size())); cuts.assign(cs.begin(), cs.end()); if (cuts.size() > 600) cuts.resize(600); }
   const TypeCtx* readers[2] = {&c, c.alt >= 0 ? &g_types[(size_t)c.alt] : nullptr};
-  for (size_t k : cuts) {
+  // tables: the same value as a foreign writer with a coarser size estimate would send it (every outer entry padded); cuts
+  // inside the padding must be rejected too
+  Bytes padded; std::vector<size_t> pcuts;
+  if ((c.t->flags & F_TABLE) && !(c.t->flags & F_HANDLE)) {
+    Enc e; RefEncode(c.sch, w.v0, e);
+    if (e.out == b && !e.entries.empty()) { Rng pr = case_rng(c.t->name, ci, 55); padded = pad_outer_entries(e, pr); Val t; DecResult rr = RefDecode(c.sch, padded.data(), padded.size(), &t, nullptr);
+      if (rr.cat != Cat::OK || rr.consumed != padded.size()) padded.clear(); else { for (size_t k = 0; k < padded.size() && padded.size() <= 600; k++) pcuts.push_back(k); } }
+  }
+  for (int pass = 0; pass < 2; pass++) {
+  const Bytes& b = pass ? padded : w.bytes; if (pass && padded.empty()) break;
+  const std::vector<size_t>& cuts_now = pass ? pcuts : cuts;
+  if (pass) rep().count("c05_padded_table_encodings");
+  for (size_t k : cuts_now) {
     for (int which = 0; which < 2; which++) {
       const TypeCtx* rt = readers[which]; if (!rt) continue;
       for (int rk = 0; rk < R_COUNT; rk++) {
@@ -414,7 +426,7 @@ static void c05_case(const TypeCtx& c, uint64_t ci) {
         // bounded readers: (a) inner holds the k-byte prefix, limit beyond it; (b) inner holds everything, limit = k
         for (int mode = 0; mode < (r_is_bounded(rk) ? 2 : 1); mode++) {
           bool pipe = r_inner(rk) == R_FD && (k & 1);
-          std::string stage = fmt("cut@%zu/%s/%d/%d", k, rname(rk), mode, which);
+          std::string stage = fmt("%scut@%zu/%s/%d/%d", pass ? "padded-" : "", k, rname(rk), mode, which);
           if (!args().only_stage.empty() && args().only_stage != stage) continue;
           set_current("%s", case_desc(c.t->name, (int64_t)ci, stage, J().u("len", b.size()).s("bytes", hex(b, 128)).str()).c_str());
           Source src;
@@ -425,10 +437,12 @@ static void c05_case(const TypeCtx& c, uint64_t ci) {
           auto st = rt->t->read(src, dst.p);
           rep().note_enumerated(k > 0);
           rep().count("c05_cut_reads"); rep().count(std::string("c05_reader_") + rname(rk)); if (which) rep().count("c05_cut_reads_by_other_table_version");
-          if (st) rep().violation(fmt("C05:truncated-accepted:%s:%s%s", rname(rk), tkey(c).c_str(), which ? ":skipping-reader" : ""), fmt("%s: %s reported success on the first %zu of %zu bytes (mode %s)", c.t->name, rname(rk), k, b.size(), mode ? "limit=k" : "source ends at k"), case_desc(c.t->name, (int64_t)ci, stage, J().s("bytes", hex(b, 160)).u("cut", k).str()));
+          if (pass) rep().count("c05_cut_reads_of_padded_tables");
+          if (st) rep().violation(fmt("C05:truncated-accepted:%s:%s%s%s", rname(rk), tkey(c).c_str(), which ? ":skipping-reader" : "", pass ? ":padded" : ""), fmt("%s: %s reported success on the first %zu of %zu bytes (mode %s)", c.t->name, rname(rk), k, b.size(), mode ? "limit=k" : "source ends at k"), case_desc(c.t->name, (int64_t)ci, stage, J().s("bytes", hex(b, 160)).u("cut", k).str()));
         }
       }
     }
+  }
   }
   rep().count("c05_encodings"); rep().maxc("max_cut_encoding_len", b.size());
   if (rep().want_sample(c.t->name, 1) && rep().samples.size() < 12) rep().sample(c.t->name, J().s("type", c.t->name).s("bytes", hex(b, 40)).u("cuts", cuts.size()).str(), 1);
